@@ -149,9 +149,11 @@ class FdTable(EngineBase):
                           "entry for fd %d which never existed" % fd)
                         continue
                     tgt = k.fd_target(d)
+                    lit = k.files.get(tgt)
                     okpath = tgt.startswith("/") and (
                         ent.path == tgt or (
                             tgt.endswith(" (deleted)") and
+                            not (lit is not None and lit["t"] == "f") and
                             ent.path == tgt[:-10]))
                     node = k.files.get(ent.path)
                     if not okpath or node is None or node["t"] != "f":
@@ -181,7 +183,9 @@ class FdTable(EngineBase):
                     if node is None or node["t"] != "f":
                         continue
                     if fd not in seen:
-                        V("C14.complete", tags, subject,
+                        V("C14.complete", tags + (
+                            ["literal_deleted_suffix"] if d["target"].endswith(
+                                " (deleted)") else []), subject,
                           "fd %d -> %r stayed open for the whole call but is "
                           "missing from %d entries" % (fd, d["target"],
                                                        len(val)))
